@@ -658,13 +658,13 @@ def rule_journal_iters(text):
     """the two iterator one-liners of allocation_journal::decode"""
     apps = []
     m = mask(text)
-    mm = re.search(r"(\w+)\s*\.\s*into_iter\s*\(\s*\)\s*\.\s*max_by_key\s*\(", m)
+    mm = re.search(r"(\w+)\s*\.\s*into_iter\s*\(\s*\)\s*\.\s*(max|min)_by_key\s*\(", m)
     if mm:
         op = mm.end() - 1
         cl = match_close(m, op)
         parts = _closure_parts(text[op + 1:cl])
         if parts and re.fullmatch(r"%s\s*\.\s*generation" % re.escape(parts[0]), parts[1].strip()):
-            new = "max_by_generation(%s)" % mm.group(1)
+            new = "%s_by_generation(%s)" % (mm.group(2), mm.group(1))
             apps.append(_app("R-maxk", text, mm.start(), cl + 1, new, "shim: an element with maximal generation, the LAST one on ties (std max_by_key)"))
             text = text[:mm.start()] + new + text[cl + 1:]
     m = mask(text)
